@@ -211,6 +211,14 @@ class C19(Check):
                 if go != canon.canonical(oir):
                     raise Violation("load_schema-with-reused-repo-differs", f"second load through the same repository object: {other!r} gives {go!r:.300}, inlined {canon.canonical(oir)!r:.300}")
                 labels.add("repo-object-reused")
+            # a second repository object serving the loads in the opposite order: dependencies first, the top last
+            repo2 = FlatDictRepository(td)
+            for other in self._dep_order(top, table):
+                oir, _ = gen.linearize({"k": "ref", "name": other}, table)
+                lo = guard("load_schema-with-repo", load_schema, other, repo=repo2)
+                go = guard("canonical-form", to_parsing_canonical_form, lo)
+                if go != canon.canonical(oir):
+                    raise Violation("load_schema-with-reused-repo-differs:dependencies-first", f"loading {other!r} through a repository object that already served its dependencies gives {go!r:.300}, inlined {canon.canonical(oir)!r:.300}")
             # ordered loading, dependencies first
             order = self._dep_order(top, table)
             labels.add("ordered")
@@ -255,9 +263,11 @@ class C19(Check):
                 e = o[1]
                 if not names_type(e, missing):
                     raise Violation("missing-file-error-names-other-type", f"{missing}.avsc is missing; error is {type(e).__name__}({str(e)[:200]!r}) name={getattr(e, 'name', None)!r}; files={list(files)}")
-                o = outcome(load_schema, top, repo=repo)
+                # (through a repository object created after the deletion: one that was used before may legitimately remember
+                # what it has read)
+                o = outcome(load_schema, top, repo=FlatDictRepository(td))
                 if o[0] == "ok":
-                    raise Violation("missing-file-not-reported:reused-repo", f"load_schema through the repository object used before succeeded although {missing}.avsc has been deleted")
+                    raise Violation("missing-file-not-reported:repo", f"load_schema through a new repository object succeeded although {missing}.avsc is missing")
                 if not names_type(o[1], missing):
                     raise Violation("missing-file-error-names-other-type:repo", f"{missing}.avsc is missing; load_schema(top, repo=...) raised {type(o[1]).__name__}({str(o[1])[:200]!r})")
         return labels
